@@ -197,16 +197,30 @@ def audit_proofs(ctx):
 # --------------------------------------------------------------------------------------------------
 # generic three-way comparison: Go vs model (correspondence), Go vs spec (property)
 
-def three_way(ctx, name, ops_go, ops_model, ops_spec, project_go, project_spec, legal_mask=None):
+def oracle_retry(ctx, name, ops, res, timeout):
+    """The Lean drivers (model, specification) do not depend on /repo: when one of their operations exceeds the
+    time limit - run_batch has already repeated it alone with a long limit - that says nothing about the engine:
+    there is no verdict for that input (counted in the evidence), never a violation."""
+    unresolved = set(i for i, r in enumerate(res) if r == "crash hang")
+    for _ in unresolved:
+        ctx.bump("oracle_timeout:" + name)
+    return unresolved
+
+
+def three_way(ctx, name, ops_go, ops_model, ops_spec, project_go, project_spec, legal_mask=None, timeout=20.0):
     """Runs the three drivers. project_go(line) / project_spec(line) map a result line to the comparable
     abstraction. Returns (co_breaks, prop_breaks): lists of indices."""
-    go = run_batch(HDRV, ops_go)
-    model = run_batch(MDRV, ops_model) if ops_model else [None] * len(ops_go)
-    spec = run_batch(MDRV, ops_spec) if ops_spec else [None] * len(ops_go)
+    go = run_batch(HDRV, ops_go, timeout_per_op=timeout)
+    model = run_batch(MDRV, ops_model, timeout_per_op=timeout) if ops_model else [None] * len(ops_go)
+    spec = run_batch(MDRV, ops_spec, timeout_per_op=timeout) if ops_spec else [None] * len(ops_go)
+    skip_m = oracle_retry(ctx, name, ops_model, model, timeout) if ops_model else set()
+    skip_s = oracle_retry(ctx, name, ops_spec, spec, timeout) if ops_spec else set()
     co, pr = [], []
     for i in range(len(ops_go)):
-        if ops_model and canon(go[i]) != canon(model[i]):
+        if ops_model and i not in skip_m and canon(go[i]) != canon(model[i]):
             co.append(i)
+        if i in skip_s:
+            continue
         if ops_spec and (legal_mask is None or legal_mask[i]):
             try:
                 if project_go(go[i]) != project_spec(spec[i]):
@@ -360,7 +374,7 @@ def check_C06(ctx):
         pops.append(f"perft\t{f}\t{d}")
         meta.append((f, d))
     spops = [o.replace("perft\t", "sperft\t", 1) for o in pops]
-    go2, model2, spec2, co2, pr2 = three_way(ctx, "co_perft", pops, pops, spops, lambda l: l, lambda l: l)
+    go2, model2, spec2, co2, pr2 = three_way(ctx, "co_perft", pops, pops, spops, lambda l: l, lambda l: l, timeout=120.0)
     for (f, d) in meta:
         ctx.case(f"perft{d}:{f}")
         ctx.bump(f"perft_depth_{d}")
@@ -667,6 +681,37 @@ def snapshot_inconsistent(d):
 
 # --------------------------------------------------------------------------------------------------
 # C15 evaluation symmetry (and co_eval used by C04)
+
+def blend_hypothesis_check(ctx):
+    """The evaluation bound (C05 `eval_bound`, the capstone) is proved for a blend function that satisfies
+    `BlendBounded blend pstMaxAbs`: |blend msum mid end| <= blendK * pstMaxAbs for msum <= maxMaterialSum and
+    |mid|, |end| <= pstMaxAbs. The engine's blend is float64 arithmetic, outside the model: here the hypothesis is
+    checked on the engine's own function EXHAUSTIVELY over that finite domain (constants read from the Lean
+    definitions, not copied)."""
+    src = os.path.join(BUILD, "BlendConsts.lean")
+    with open(src, "w") as f:
+        f.write("import Magog.Lemmas.EvalBound\n#eval (Magog.Lemmas.EvalBound.maxMaterialSum, Magog.Lemmas.EvalBound.blendK, Magog.Lemmas.EvalBound.pstMaxAbs)\n")
+    rc, out = infra.sh(["lake", "env", "lean", src], cwd=LEAN)
+    m = re.search(r"\((\d+),\s*(\d+),\s*(\d+)\)", out)
+    if rc != 0 or not m:
+        ctx.violation("blend-hypothesis:consts", {"kind": "unproved", "theorem": "Magog.Props.C05.eval_bound", "what": "could not read maxMaterialSum / blendK / pstMaxAbs from the Lean library", "detail": out[-600:]}, found=False)
+        return
+    max_sum, k, b = int(m.group(1)), int(m.group(2)), int(m.group(3))
+    r = run_batch(HDRV, [f"blendbound\t{max_sum}\t{b}"], timeout_per_op=300.0)[0]
+    mm = re.match(r"ok (\d+) at (-?\d+) (-?\d+) (-?\d+)", r or "")
+    n = (max_sum + 1) * (2 * b + 1) ** 2
+    ctx.co["co_blend_hypothesis"] = n
+    ctx.evaluations += n
+    if not mm:
+        ctx.violation("blend-hypothesis:run", {"kind": "unproved", "theorem": "Magog.Props.C05.eval_bound", "op": f"blendbound {max_sum} {b}", "engine": r, "what": "exhaustive check of the BlendBounded hypothesis on the engine's blend did not run"}, found=False)
+        return
+    worst = int(mm.group(1))
+    ctx.notes.append(f"BlendBounded instance on the engine's float64 blend: max |blend| = {worst} at (msum, mid, end) = ({mm.group(2)}, {mm.group(3)}, {mm.group(4)}) over {n} points; bound blendK*pstMaxAbs = {k}*{b} = {k * b}")
+    if worst > k * b:
+        ctx.violation("blend-hypothesis", {"kind": "unproved", "theorem": "Magog.Props.C05.eval_bound", "hypothesis": "BlendBounded blend pstMaxAbs",
+                                           "op": f"blend {mm.group(2)} {mm.group(3)} {mm.group(4)}", "engine": worst, "bound": k * b,
+                                           "what": "the engine's king-table blend exceeds the bound under which the evaluation range theorem is proved; the cp range of non-mate evaluations is no longer shown"}, found=False)
+
 
 def blend_domain_check(ctx):
     """Go float64 blend vs Lean Float on the complete domain: material sum 0..(2*15 queens) step 10 x the
@@ -1997,6 +2042,7 @@ def check_C05(ctx):
             if abs(full) > close or abs(int(d["cheap"])) > close:
                 ctx.violation(f"evalrange:{f}", {"kind": "input", "fen": f, "lines": [f"position {f}", "eval"], "what": f"non-mate evaluation {full} / {d['cheap']} outside the cp range (ScoreCloseToMate {close})"})
     ctx.notes.append(f"largest |evaluation| seen on non-terminal positions: {mx} (ScoreCloseToMate {close})")
+    blend_hypothesis_check(ctx)
     # formatScore on the whole interesting range: Go vs model
     scores = list(range(-100000, -99900)) + list(range(99900, 100001)) + list(range(-close - 5, -close + 6)) + list(range(close - 5, close + 6)) + [0, 1, -1, 50000, -50000]
     fo = [f"fmt\t{x}" for x in scores]
